@@ -129,4 +129,4 @@ prop("C17",
            "liquer.store.StoreMixin.read_only",
            "liquer.store.FileStore._checked_key", "liquer.store.FileStore.path_for_key", "liquer.store.FileStore.metadata_path_for_key"],
      static=[("inherits", "ReadOnlyStore", "ProxyStore", ["get_bytes", "get_metadata", "contains", "is_dir", "keys", "listdir"]),
-             ("origin", "FileStore", ["path_for_key", "metadata_path_for_key"], ["__init__", "clone"])])
+             ("origin", "FileStore", ["path_for_key", "metadata_path_for_key"], ["__init__", "clone"], ["_write_atomically"])])
